@@ -20,7 +20,9 @@ Definition mkq (num : Z) (den : positive) : Qc := Q2Qc (num # den).
 Definition Qc_eqb (a b : Qc) : bool := Qeq_bool (this a) (this b).
 
 Definition id := nat.
-Inductive val := Sc (q : Qc) | Arr (l : list Qc).
+(* Sc / Arr: a number / a 1-d array; ScI: a default declared by a bare integer (`tau: 10`, dtype 'int');
+   Ref: a string-valued edge attribute holding a variable path (`edge_op/var: node/op/var`) *)
+Inductive val := Sc (q : Qc) | Arr (l : list Qc) | ScI (z : Z) | Ref (p : string).
 Definition vars := list (string * val).
 Definition edge := (string * string * vars)%type.
 
